@@ -686,6 +686,7 @@ func (s *Store) AuthorizeClientIDSecret(ctx context.Context, clientID, clientSec
 }
 
 func (s *Store) setUserinfo(ui *oidc.UserInfo, userID string, scopes []string) {
+	s.extUserinfoReplace(ui) // ext_c06.go: no-op unless EnableUserinfoReplace was called
 	u := s.Users[userID]
 	for _, sc := range scopes {
 		switch sc {
